@@ -1,8 +1,10 @@
 SPECIFICATION Spec
 CONSTANTS Level = 2
  MutDepth = 2
+ WrapMuts = {"correct","droplit","L.neg","L.conn","P.neg","P.conn","dropprem","nm.shape","nm.arity","nm.vars"}
 INVARIANT SchemaTyped
 INVARIANT RefSound
 INVARIANT DbSound
+INVARIANT ClosedRefutes
 INVARIANT NearMissRefuted
 CHECK_DEADLOCK FALSE
